@@ -1,12 +1,13 @@
 """C03 - URL matching agrees with the declarative meaning of the rules (structural clauses).
 
-Ten rules.  R3.1-R3.8 do not interpret the per-part regular expressions or the
+Eleven rules.  R3.1-R3.8 and R3.11 do not interpret the per-part regular expressions or the
 backtracking search as a language recogniser (R3.9 / R3.10 do, on sample maps and
 paths only, by symbolic execution of the source): what is decided is the priority
 order, the 405 bookkeeping of the rule loops, the mapping of NoMatch onto HTTP
 exceptions, that a converter's late rejection does not end the search, that
 the weight of a rule part is frozen once it was built, that the retry on the
-path with merged slashes happens only for maps that merge slashes, and two
+path with merged slashes happens only for maps that merge slashes, that NoMatch
+is raised only behind the search (no fast reject around it), and two
 writer / reader agreements between the rule parser and the matcher: how the
 regex of a dynamic part ends (end anchor vs. how the matcher applies it) and
 that a final part's regex leaves the rule's trailing slash optional.
@@ -82,12 +83,22 @@ LEVEL_TEXT = (
     "rules of sample maps under all four map-level combinations; (R3.10) decided on samples only, by symbolic execution of the routing source "
     "(the AST interpreter of _c04_helpers; maps, rules and request paths concrete, werkzeug never imported or run): for the sample maps listed in "
     "the module - three rules under each of the four strict_slashes x merge_slashes map settings against doubled, trailing and missing slashes; "
+    "three rules (leaf, branch with a method set, one-segment leaf) under the same four settings against request paths that are several parts deeper than every "
+    "rule and still denote an admitted path once runs of slashes are merged (two doubled slashes, a doubled slash plus a doubled trailing slash, with leading slashes, "
+    "for an admitted and for a not admitted method); "
     "request paths with one, two and three leading slashes (all routed like the path with one); every length option of the string converter alone and "
     "combined, int, int(fixed_digits), float, any, uuid, path and a literally decorated variable at the boundaries of what the option admits; a "
     "priority map (literal / int / string / path, a rule the search has to back out of) in both insertion orders; GET / POST / PUT against rules "
     "with method sets - MapAdapter.match answers with exactly what the rule strings denote: the endpoint and converted arguments, the redirect to "
-    "the merged or slash-completed path, NotFound, or MethodNotAllowed with the admitted rules' methods. "
-    "Not decided: anything about maps and paths outside those samples beyond R3.1-R3.8, in particular that the compiled per-part regular "
+    "the merged or slash-completed path, NotFound, or MethodNotAllowed with the admitted rules' methods; "
+    "(R3.11) 'no rule' is an answer of the search, not a shortcut around it - every place where StateMachineMatcher.match builds / raises NoMatch (in match() itself, in a "
+    "closure nested in it or in a private method / function of the module that match() calls, followed to the call sites) is reached only on paths on which the "
+    "recursive search nested in match() has been called first (directly or through a closure that calls it on every path to its normal exit; a call under a "
+    "conditional expression, a later operand of and / or or a comprehension does not count; a raise that has the search in front of it on some paths only is exit 2), "
+    "so no test on the request path or on bookkeeping recorded in add() (depth, length, number of parts, ...) can turn a path some rule admits - directly, after the "
+    "slash redirect, or after merging repeated slashes - into a 404 / swallow the 405 bookkeeping before the rules were looked at. "
+    "Not decided: a shortcut taken after the first search (between it and the merged-slashes retry) or inside the search (pruning), beyond the R3.10 samples; "
+    "runs of three or more slashes (not sampled: the tree merges pairs of slashes once, /a///b becomes /a//b and is answered NotFound); anything about maps and paths outside those samples beyond R3.1-R3.8, in particular that the compiled per-part regular "
     "expressions plus backtracking accept exactly the language the rule grammar denotes (regex / state-machine "
     "semantics: the converters' own patterns, the named groups, escaping of literals, what precedes the end of a part's regex, that the empty static part "
     "follows a suffixed part), "
@@ -118,6 +129,7 @@ ASSUMPTIONS = [
     "R3.7 / R3.8: every piece appended to a part's regex is a regex fragment of its own (escaped literal text, a converter's pattern wrapped in a group, a constant), so the known end of the text decides how the whole regex ends (no alternation at top level, no class left open)",
     "R3.7 / R3.8: the abstract execution follows bool flags and strings; the known end of a string is cut to 16 characters and three repetitions of a character; an unknown callee that is handed a followed string, or a rule part changed after it was built, is exit 2; a violation that hangs on a condition over followed values the evaluator cannot read is exit 2, one that hangs on input (`self.<attr>`, parameters, match results) is a violation",
     "R3.7: the applications of a part's `content` are those in StateMachineMatcher.match (and the functions nested in it); when the matcher looks at the end position of the match object, a missing end anchor is exit 2",
+    "R3.11: the search is the one recursive function nested in match(); NoMatch is recognised by its name at the construction site and judged where it is built (its arguments - the websocket flag above all - are read there); a function that receives the search or a searching closure as a value is not followed (exit 2)",
     "R3.9 / R3.10: the reference answer of a sample is written next to it and follows the documented meaning of the rule strings and of strict_slashes / merge_slashes (a doubled slash is answered with a redirect to the merged path when the map merges slashes and with NotFound when it does not; a branch rule visited without its slash redirects under strict_slashes; leading slashes of the request path do not count); the adapter is bound to server_name 'example.org', script root '/'; samples keep clear of the known R3.4 defect (a converter's late rejection is never the only thing between a path and another rule)",
 ]
 
@@ -2682,6 +2694,170 @@ def _r36(ctx: Ctx, m: _Matcher) -> None:
         )
 
 
+# ----------------------------------------------------------------------
+# R3.11: "no rule" is an answer of the search, not a shortcut around it
+
+
+def _sure_calls(root: ast.AST, names: t.Collection[str]) -> list[ast.Call]:
+    """calls `<name>(...)` with name in names that are evaluated whenever root is (not under a conditional expression's
+    branches, the later operands of and / or, a comprehension, a lambda or a nested definition)."""
+    out: list[ast.Call] = []
+
+    def go(x: ast.AST) -> None:
+        if isinstance(x, (ast.FunctionDef, ast.AsyncFunctionDef, ast.ClassDef, ast.Lambda, ast.ListComp, ast.SetComp, ast.DictComp, ast.GeneratorExp)):
+            return
+        if isinstance(x, ast.IfExp):
+            go(x.test)
+            return
+        if isinstance(x, ast.BoolOp):
+            go(x.values[0])
+            return
+        if isinstance(x, ast.Call) and isinstance(x.func, ast.Name) and x.func.id in names:
+            out.append(x)
+        for ch in ast.iter_child_nodes(x):
+            go(ch)
+
+    go(root)
+    return out
+
+
+def _r311(ctx: Ctx, m: _Matcher) -> None:
+    fi = m.match
+    search = m.search
+    closures = [F for F in ast.walk(fi.node) if F is not fi.node and isinstance(F, (ast.FunctionDef, ast.AsyncFunctionDef)) and F is not search and not _inside(F, search)]
+    by_name: dict[str, list[ast.AST]] = {}
+    for F in [search, *closures]:
+        by_name.setdefault(F.name, []).append(F)
+    if any(len(v) > 1 for v in by_name.values()):
+        raise AnalysisError(f"{fi.fq}: two functions nested in match() share a name; calls cannot be attributed")
+    cfgs: dict[int, CFG] = {id(fi.node): m.match_cfg, id(search): m.search_cfg}
+
+    def cfg_for(F: ast.AST) -> CFG:
+        if id(F) not in cfgs:
+            cfgs[id(F)] = CFG(F)
+        return cfgs[id(F)]
+
+    def running(c: CFG, names: t.Collection[str]) -> list[Node]:
+        return [n for n in c.nodes if any(_sure_calls(r, names) for r in _evaluated(n))]
+
+    def mentioning(c: CFG, names: t.Collection[str]) -> list[Node]:
+        return [n for n in c.nodes if any(isinstance(x, ast.Name) and x.id in names for r in _evaluated(n) for x in ast.walk(r))]
+
+    # closures of match() that run the search on every path to their normal exit / that may run it
+    always: set[str] = {search.name}
+    maybe: set[str] = {search.name}
+    changed = True
+    while changed:
+        changed = False
+        for F in closures:
+            c = cfg_for(F)
+            if F.name not in always and running(c, always) and c.all_paths_pass(c.entry, [c.exit], running(c, always)):
+                always.add(F.name)
+                changed = True
+            if F.name not in maybe and any(isinstance(x, ast.Name) and x.id in maybe for x in ast.walk(F)):
+                maybe.add(F.name)
+                changed = True
+
+    def status(F: ast.AST, node: Node, trail: tuple[int, ...] = (), own: bool = True) -> tuple[str, str]:
+        """is the search run on every path from the entry of match() to `node` (a CFG node of F)?
+        ok / before (no search can have run) / mixed (on some paths, or in a way not followed).
+        own: a search run by `node` itself counts (not so for the call of a closure that raises before it searches)"""
+        c = cfg_for(F)
+        ran = [x for x in running(c, always) if own or x is not node]
+        if c.all_paths_pass(c.entry, [node], ran):
+            return "ok", ""
+        if F is not fi.node:
+            if id(F) in trail:
+                return "mixed", f"{F.name}() is reached recursively"  # type: ignore[attr-defined]
+            name = F.name  # type: ignore[attr-defined]
+            sites = [k for k in astq.calls(fi.node) if isinstance(k.func, ast.Name) and k.func.id == name and not _inside(k, F)]
+            other = [x for x in ast.walk(fi.node) if isinstance(x, ast.Name) and x.id == name and isinstance(x.ctx, ast.Load) and not _inside(x, F) and not any(x is k.func for k in sites)]
+            if other:
+                return "mixed", f"{name}() is handed on as a value"
+            res = []
+            for k in sites:
+                G = _enclosing_func(k)
+                if G is search or (G is not None and _inside(G, search)):
+                    continue  # called from inside the search: the search is running
+                if G is None or isinstance(G, ast.Lambda):
+                    return "mixed", f"{name}() is called from a lambda"
+                kn = cfg_for(G).node_of(k)
+                if kn is None:
+                    return "mixed", f"no CFG node for the call of {name}()"
+                in_args = any(_sure_calls(a, always) for a in [*k.args, *[kw.value for kw in k.keywords]])
+                res.append(status(G, kn, (*trail, id(F)), own=in_args))
+            if any(r[0] == "before" for r in res):
+                return next(r for r in res if r[0] == "before")
+            if any(r[0] == "mixed" for r in res):
+                return next(r for r in res if r[0] == "mixed")
+            return "ok", ""
+        touched = [x for x in mentioning(c, maybe) if own or x is not node]
+        if touched and any(s.id == node.id or node.id in c.reach(s) for x in touched for s, _ in x.succs):
+            w = c.path(c.entry, node, avoid_nodes=ran)
+            return "mixed", "a path without a search that is certain to run: " + (c.fmt_path(w) if w else "?")
+        w = c.path(c.entry, node)
+        return "before", c.fmt_path(w) if w else ""
+
+    # where NoMatch leaves: the raise statements in match() and in the closures / private functions that raise for it
+    raises: list[tuple[ast.AST, Node, str]] = []
+    inside_search = 0
+    for k in m.nomatch_calls:
+        F = _enclosing_func(k)
+        if F is search or (F is not None and _inside(F, search)):
+            inside_search += 1
+            continue
+        if F is None or isinstance(F, ast.Lambda):
+            raise AnalysisError(f"{fi.fq}: NoMatch is built inside a lambda; where it is raised is not followed")
+        c = cfg_for(F)
+        n = c.node_of(k)
+        if n is None:
+            raise AnalysisError(f"{fi.fq}: no CFG node for `{norm(k)[:50]}`")
+        # judged where it is built: the arguments (the flag above all) are read there, and a raise can only follow
+        raises.append((F, n, f"`{norm(n.ast)[:70]}`"))
+    # private functions outside match() that build NoMatch, called from match()
+    mod = fi.module
+    for G in [*m.cls.methods.values(), *mod.functions.values()]:
+        if G is fi or not isinstance(G.node, (ast.FunctionDef, ast.AsyncFunctionDef)):
+            continue
+        if not any(_last(dotted(k.func)) == "NoMatch" for k in astq.calls(G.node)):
+            continue
+        is_method = G.name in m.cls.methods and m.cls.methods[G.name] is G
+        for k in astq.calls(fi.node):
+            hit = (is_method and isinstance(k.func, ast.Attribute) and k.func.attr == G.name and isinstance(k.func.value, ast.Name) and k.func.value.id == "self") or (
+                not is_method and isinstance(k.func, ast.Name) and k.func.id == G.name and G.name not in by_name
+            )
+            if not hit:
+                continue
+            F = _enclosing_func(k)
+            if F is search or (F is not None and _inside(F, search)):
+                inside_search += 1
+                continue
+            if F is None or isinstance(F, ast.Lambda):
+                raise AnalysisError(f"{fi.fq}: {G.name}() (builds NoMatch) is called from a lambda")
+            n = cfg_for(F).node_of(k)
+            if n is None:
+                raise AnalysisError(f"{fi.fq}: no CFG node for `{norm(k)[:50]}`")
+            raises.append((F, n, f"`{norm(n.ast)[:70]}` ({G.name}() builds NoMatch)"))
+    if inside_search:
+        ctx.note(f"R3.11: {inside_search} NoMatch construction(s) inside the search function itself are not judged (the search is running there)")
+    ctx.floor("R3.11", "places in the matcher where NoMatch is built / raised", len(raises), 1)
+    seen: set[int] = set()
+    for F, n, what in sorted(raises, key=lambda r: r[1].lineno):
+        if n.id in seen and F is fi.node:
+            continue
+        seen.add(n.id)
+        st, why = status(F, n)
+        if st == "mixed":
+            raise AnalysisError(f"{fi.fq}: cannot decide whether the search has run before {what}: {why}")
+        ok = st == "ok"
+        ctx.ob(
+            "R3.11", "NoMatch is raised only after the search over the rules has been run", ok,
+            f"{what}: every path from the entry of match() runs {search.name}() first: {ok}"
+            + ("" if ok else f" ({why}) - the matcher answers 'no rule admits the path' without having looked at the rules: a path some rule admits (directly, after the slash redirect or - under merge_slashes - after merging repeated slashes) becomes a 404, and have_match_for is still empty, so a 405 becomes a 404 too"),
+            fi, n.ast, f"NoMatch only after the search: {norm(n.ast)[:60]}",
+        )
+
+
 def _pure_binding(n: Node, call: ast.Call | None) -> bool:
     """n is `name = <expr>` (a plain local binding)."""
     a = n.ast
@@ -3355,6 +3531,31 @@ def _flag_samples() -> list[dict[str, t.Any]]:
     return out
 
 
+def _deep_slash_samples() -> list[dict[str, t.Any]]:
+    """request paths that are several parts deeper than every rule of the map and still denote an admitted path once the
+    runs of slashes are merged: two doubled slashes, a doubled slash plus a doubled trailing slash."""
+    out = []
+    for strict in (True, False):
+        for merge in (True, False):
+            rd = lambda p: _RD(p) if merge else _NF  # noqa: E731
+            out.append({
+                "id": f"several doubled slashes, strict_slashes={strict}, merge_slashes={merge}", "group": "deep", "map_kw": {"strict_slashes": strict, "merge_slashes": merge},
+                "rules": [("/a/b/c", {"endpoint": "abc"}), ("/a/<int:n>/", {"endpoint": "an", "methods": ["POST"]}), ("/x", {"endpoint": "x"})],
+                "cases": [
+                    ("/a/b/c", None, _M("abc"), "the leaf rule /a/b/c admits its own path"),
+                    ("/a/7/", "POST", _M("an", n=7), "the branch rule /a/<int:n>/ admits /a/7/ for POST"),
+                    ("/a//b//c", None, rd("/a/b/c"), "two doubled slashes: the merged path /a/b/c is admitted under merge_slashes (redirect to it), no rule admits the path otherwise"),
+                    ("/a//b//d", None, _NF, "no rule admits the path, merged or not"),
+                    ("//a//b//c", None, rd("/a/b/c"), "leading slashes do not count; the rest merges to /a/b/c"),
+                    ("/a//7//", "POST", rd("/a/7/"), "a doubled slash and a doubled trailing slash: merges to /a/7/, which the branch rule admits for POST"),
+                    ("/a//7//", "GET", _405("POST") if merge else _NF, "merges to /a/7/, admitted only for POST: 405 listing POST under merge_slashes, no rule otherwise"),
+                    ("/a//b//c//", None, _RD("/a/b/c/") if merge and not strict else _NF, "merges to /a/b/c/, which the leaf rule admits only when strict_slashes is off"),
+                    ("/x//", None, _RD("/x/") if merge and not strict else _NF, "merges to /x/, which the leaf rule /x admits only when strict_slashes is off"),
+                ],
+            })
+    return out
+
+
 def _norm_samples() -> list[dict[str, t.Any]]:
     out = []
     for merge in (True, False):
@@ -3535,12 +3736,13 @@ _SAMPLE_WHERE = {
     "conv": ("routing.rules.Rule._parse_rule", "routing.rules.Rule.compile", "routing.map.MapAdapter.match"),
     "prio": ("routing.matcher.StateMachineMatcher.match", "routing.map.MapAdapter.match"),
     "405": ("routing.matcher.StateMachineMatcher.match", "routing.map.MapAdapter.match"),
+    "deep": ("routing.matcher.StateMachineMatcher.match", "routing.map.MapAdapter.match"),
 }
 
 
 def _r39_r310(ctx: Ctx) -> None:
     repo = ctx.repo
-    samples = [*_flag_samples(), *_norm_samples(), _CONVERTER_SAMPLE, *_priority_samples(), _METHOD_SAMPLE]
+    samples = [*_flag_samples(), *_deep_slash_samples(), *_norm_samples(), _CONVERTER_SAMPLE, *_priority_samples(), _METHOD_SAMPLE]
     n_cases = n_flags = 0
     for sc in samples:
         where: FuncInfo | str = next((f for f in (repo.try_func(fq) for fq in _SAMPLE_WHERE[sc["group"]]) if f is not None), _SAMPLE_WHERE[sc["group"]][0])
@@ -3586,6 +3788,7 @@ def run(ctx: Ctx) -> None:
     ctx.rule("R3.8", "writer/reader agreement on the trailing slash of a final part: its regex never requires the slash, and a part marked suffixed ends in a last group capturing the optional slash")
     ctx.rule("R3.9", "a rule written without strict_slashes / merge_slashes is bound with the map's setting of the same name (read back from sample rules under all four map-level combinations)")
     ctx.rule("R3.10", "sample maps and request paths of the property's grammar (map flags x doubled / trailing slashes, leading slashes, each converter option at its boundaries, priority in both insertion orders, methods), answered by symbolic execution of the source, get the answer the rule strings denote")
+    ctx.rule("R3.11", "the matcher raises NoMatch only after the search over the rules has been run on the request path (no shortcut to 'no rule' around the search, the merged-slashes retry and the 405 bookkeeping)")
     m = _Matcher(ctx)
     # R3.1
     _r31_order(ctx, m)
@@ -3604,6 +3807,8 @@ def run(ctx: Ctx) -> None:
     _r35(ctx, funcs)
     # R3.6
     _r36(ctx, m)
+    # R3.11
+    _r311(ctx, m)
     # R3.7, R3.8
     _r37_r38(ctx, m)
     # R3.9, R3.10
